@@ -398,6 +398,13 @@ class AnnounceOracle:
             self.viol("NO-OFFER-AFTER-STOP", f"offer for {ins.key} to {dst[0]} at {T:.6f} after it was stopped at {ins.t_stop}", cause)
             self.viol("ANSWER", f"stopped instance {ins.key} answered a FindService of {dst[0]} at {T:.6f} (stopped at {ins.t_stop})", "from-stopped-instance:" + cause)
             return
+        if (ins.running and ins.k == 0 and ins.first_tx is None and ins.Q is not None and T < ins.Q[0] - RES and not ins.broken
+                and (ins.t_stop is None or T > self.FL(ins.t_stop) + RES)):
+            # the instance was started (again) and is still in its initial wait: it is not ready, whatever was asked
+            # of its previous incarnation (answers queued before a stop leave with the flush that precedes the StopOffer,
+            # i.e. in the instant of the stop - possibly after a start in that same instant)
+            self.viol("ANSWER", f"instance {ins.key} answered a FindService of {dst[0]} at {T:.6f} during its initial wait (first offer not before {ins.Q[0]:.6f})", "during-initial-wait")
+            return
         self._content(ins, e, f"find answer to {dst[0]}")
         # which request it answers is decided at the end, by matching (see finish())
         self.answers.append(dict(T=T, inst=ins, p=dst))
